@@ -8,6 +8,14 @@ engine 'kani' : harness crate under kani/, compiled against /repo on every run.
 UNITS = {
     "F64": dict(engine="verus", template="contracts/f64.vx", props=["C01", "C11", "C05", "C12", "C14"], rlimit=150,
                 desc="serial u64 field backend: FieldElement51 kernels against integer arithmetic mod p"),
+    "F32": dict(engine="verus", template="contracts/f32.vx", props=["C01", "C11", "C05", "C12", "C14"], rlimit=200,
+                desc="serial u32 field backend (FieldElement2625, never compiled on this host by the repo's own build): every function against integer arithmetic mod p"),
+    "ED": dict(engine="verus", template="contracts/ed.vx", props=["C03", "C11", "C15", "C14", "C05"], rlimit=100,
+               desc="Edwards layer: curve_models formulas + edwards.rs (decompress, compress, add/sub/neg/double, mul_by_pow_2, ct_eq, is_small_order) over the abstract field; IFACE_E proved"),
+    "RIS": dict(engine="verus", template="contracts/ris.vx", props=["C06", "C11", "C15", "C14"], rlimit=100,
+                desc="ristretto.rs against RFC 9496: decode (five rejection tests), encode, equals, MAP, one-way map, wrappers"),
+    "MONT": dict(engine="verus", template="contracts/mont.vx", props=["C07", "C04", "C11", "C15", "C14"], rlimit=100,
+                 desc="montgomery.rs + x25519.rs against RFC 7748: ladder step exact, ladder driver over a generic bit iterator, as_affine, to_edwards, to_montgomery, elligator_encode, x25519(), diffie_hellman x3, was_contributory"),
     "FG": dict(engine="verus", template="contracts/fg.vx", props=["C01", "C11", "C05"], rlimit=40,
                desc="field.rs over the abstract field interface: ct_eq, is_negative, is_zero, pow22501, invert, pow_p58, sqrt_ratio_i, invsqrt"),
     "CONST64": dict(engine="verus", template="contracts/const64.vx", props=["C12", "C05", "C17"], rlimit=300,
